@@ -480,6 +480,12 @@ class P:
                 self.expect("op", "{")
                 blk = self.block()
                 return ("for", pat, it, blk)
+            if k == "id" and v == "while" and self.peek(1) != ("id", "let"):
+                self.next()
+                c = self.expr(nostruct=True)
+                self.expect("op", "{")
+                blk = self.block()
+                return ("while", c, blk)
             if k == "id" and v in ("while", "loop"):
                 raise Untranslatable("loop")
             e = self.expr(stmt=True)
@@ -703,6 +709,18 @@ class P:
                 e = ("macro", path[-1], self.t[start:self.i - 1])
             elif self.accept("op", "("):
                 e = ("call", path, self.args())
+            elif (not nostruct and self.peek() == ("op", "{") and path[-1][:1].isupper() and
+                  (self.peek(1) == ("op", "}") or (self.peek(1)[0] == "id" and self.peek(2) in (("op", ":"), ("op", ","), ("op", "}"))))):
+                self.next()
+                fields = []
+                while not self.accept("op", "}"):
+                    fn_ = self.expect("id")
+                    if self.accept("op", ":"):
+                        fields.append((fn_, self.expr()))
+                    else:
+                        fields.append((fn_, ("path", [fn_])))
+                    self.accept("op", ",")
+                e = ("structlit", path, fields)
             else:
                 e = ("path", path)
         else:
